@@ -659,9 +659,6 @@ package ecs
 //@ func archNode.SetArchetype(a, arch)
 //@   flag trusted
 //@   modifies a.nodeData.archetype
-//@ func Cache.addArchetype(c, arch)
-//@   flag trusted
-//@   modifies all(cacheEntry.Indices)
 
 //@ func World.createArchetype(w, node, target, forStorage) (arch)
 //@   props C16
@@ -1173,3 +1170,193 @@ package ecs
 //@   props C11
 //@   flag may_panic noframe
 //@   ensures w.listener == nil ==> notifyCount[w.listener.val] == old(notifyCount[w.listener.val])
+
+// ---------------------------------------------------------------------------------------------
+// C07 — filter cache
+// ---------------------------------------------------------------------------------------------
+
+//@ func pointers[archetype].Get(a, index) (r)
+//@   props C07
+//@   requires 0 <= index && int(index) < len(a.pointers)
+//@   ensures r == a.pointers[int(index)]
+
+//@ func pointers[archetype].Len(a) (n)
+//@   props C07
+//@   requires len(a.pointers) < 2147483647
+//@   ensures int(n) == len(a.pointers)
+
+//@ func pointers[archetype].Add(a, elem)
+//@   props C07
+//@   ensures len(a.pointers) == old(len(a.pointers)) + 1 && a.pointers[old(len(a.pointers))] == elem
+//@   ensures forall k int :: {a.pointers[k]} 0 <= k && k < old(len(a.pointers)) ==> a.pointers[k] == old(a.pointers[k])
+//@   modifies a.pointers, a.pointers[ALL]
+
+// swap-remove; in place: the backing store is kept (a header copied before the call aliases the new content)
+//@ func pointers[archetype].RemoveAt(a, index) (swapped)
+//@   props C07
+//@   requires 0 <= index && index < len(a.pointers)
+//@   ensures len(a.pointers) == old(len(a.pointers)) - 1 && swapped == (index != old(len(a.pointers)) - 1)
+//@   ensures forall k int :: {a.pointers[k]} 0 <= k && k < len(a.pointers) && k != index ==> a.pointers[k] == old(a.pointers[k])
+//@   ensures swapped ==> a.pointers[index] == old(a.pointers[len(a.pointers) - 1])
+//@   ensures a.pointers.data == old(a.pointers.data)
+//@   modifies a.pointers, a.pointers[ALL]
+
+// the id pool of the cache: same ghost view as the other pools, only the in-use set is needed by the cache
+//@ ghostfield intPool.istk map[int]uint32
+//@ ghostfield intPool.irank map[uint32]int
+//@ ghostfield intPool.iused map[uint32]bool
+
+//@ pred intPoolInv(p *intPool[uint32]) bool =
+//@   int(p.available) <= len(p.pool)
+//@   && (forall h int :: {p.istk[h]} 0 <= h && h < len(p.pool) ==> int(p.istk[h]) < len(p.pool) && p.irank[p.istk[h]] == h)
+//@   && (forall i uint32 :: {p.irank[i]} int(i) < len(p.pool) ==> 0 <= p.irank[i] && p.irank[i] < len(p.pool) && p.istk[p.irank[i]] == i)
+//@   && (p.available > 0 ==> p.next == p.istk[int(p.available) - 1])
+//@   && (forall h int :: {p.istk[h]} 1 <= h && h < int(p.available) ==> p.pool[int(p.istk[h])] == p.istk[h - 1])
+//@   && (forall i uint32 :: {p.irank[i]} p.iused[i] == (int(i) < len(p.pool) && p.irank[i] >= int(p.available)))
+
+//@ func intPool[uint32].Get(p) (r)
+//@   props C07 C13
+//@   requires intPoolInv(p) && len(p.pool) < 1073741823 && p.capacityIncrement < 1073741823
+//@   ghost p.iused[r] := true
+//@   ensures intPoolInv(p) && !old(p.iused[r]) && p.iused[r]
+//@   ensures forall i uint32 :: {p.iused[i]} i != r ==> p.iused[i] == old(p.iused[i])
+//@   modifies *p, p.pool[ALL]
+
+//@ func intPool[uint32].getNew(p) (r)
+//@   props C07
+//@   requires intPoolInv(p) && p.available == 0 && len(p.pool) < 1073741823 && p.capacityIncrement < 1073741823
+//@   ghost p.istk[old(len(p.pool))] := r
+//@   ghost p.irank[r] := old(len(p.pool))
+//@   ghost p.iused[r] := true
+//@   ensures intPoolInv(p) && int(r) == old(len(p.pool)) && !old(p.iused[r]) && p.iused[r] && p.available == 0
+//@   ensures forall i uint32 :: {p.iused[i]} i != r ==> p.iused[i] == old(p.iused[i])
+//@   modifies *p, p.pool[ALL]
+
+//@ func intPool[uint32].Recycle(p, e)
+//@   props C07 C13
+//@   requires intPoolInv(p) && p.iused[e]
+//@   ghost p.istk[old(p.irank[e])] := old(p.istk[int(p.available)])
+//@   ghost p.irank[old(p.istk[int(p.available)])] := old(p.irank[e])
+//@   ghost p.istk[int(old(p.available))] := e
+//@   ghost p.irank[e] := int(old(p.available))
+//@   ghost p.iused[e] := false
+//@   ensures intPoolInv(p) && !p.iused[e]
+//@   ensures forall i uint32 :: {p.iused[i]} i != e ==> p.iused[i] == old(p.iused[i])
+//@   modifies p.next, p.available, p.istk, p.irank, p.iused, p.pool[int(e)]
+
+// selects(f, a): table a contributes to filter f (the single definition used by the cache and, later, the queries)
+//@ pred tableActive(a *archetype) bool = a.archetypeData != nil && a.archetypeData.index >= 0
+//@ pred selects(f Filter, a *archetype) bool =
+//@   matches(f, a.archetypeAccess.Mask)
+//@   && (is(f, *RelationFilter) && a.archetypeAccess.HasRelationComponent ==> a.archetypeAccess.RelationTarget == as(f, *RelationFilter).Target)
+
+// entryInv: the cached list holds only selected tables, without nil entries or duplicates, and the position map
+// (once it exists) records exactly the position of every relation table of the list.
+//@ pred entryInv(e *cacheEntry) bool =
+//@   e.Filter != nil && len(e.Archetypes.pointers) < 1073741823
+//@   && (forall k int :: {e.Archetypes.pointers[k]} 0 <= k && k < len(e.Archetypes.pointers) ==> e.Archetypes.pointers[k] != nil && selects(e.Filter, e.Archetypes.pointers[k]))
+//@   && (forall j int, k int :: {e.Archetypes.pointers[j], e.Archetypes.pointers[k]} 0 <= j && j < k && k < len(e.Archetypes.pointers) ==> e.Archetypes.pointers[j] != e.Archetypes.pointers[k])
+//@   && (e.Indices != nil ==> (forall k int :: {e.Archetypes.pointers[k]} 0 <= k && k < len(e.Archetypes.pointers) && e.Archetypes.pointers[k].archetypeAccess.HasRelationComponent ==>
+//@           mapHas(e.Indices, e.Archetypes.pointers[k]) && e.Indices[e.Archetypes.pointers[k]] == k))
+//@   && (e.Indices != nil ==> (forall a *archetype :: {mapHas(e.Indices, a)} mapHas(e.Indices, a) ==> 0 <= e.Indices[a] && e.Indices[a] < len(e.Archetypes.pointers) && e.Archetypes.pointers[e.Indices[a]] == a))
+
+//@ pred notListed(e *cacheEntry, a *archetype) bool = forall k int :: {e.Archetypes.pointers[k]} 0 <= k && k < len(e.Archetypes.pointers) ==> e.Archetypes.pointers[k] != a
+
+//@ func Cache.mapArchetypes(c, e)
+//@   props C07
+//@   requires e != nil && entryInv(e)
+//@   ensures entryInv(e) && e.Indices != nil && e.Archetypes.pointers == old(e.Archetypes.pointers)
+//@   modifies e.Indices
+//@   loop #1
+//@   inv e.Indices != nil && fresh(e.Indices) && e.Archetypes.pointers == old(e.Archetypes.pointers)
+//@   inv forall k int :: {e.Archetypes.pointers[k]} 0 <= k && k < $i && e.Archetypes.pointers[k].archetypeAccess.HasRelationComponent ==> mapHas(e.Indices, e.Archetypes.pointers[k]) && e.Indices[e.Archetypes.pointers[k]] == k
+//@   inv forall a *archetype :: {mapHas(e.Indices, a)} mapHas(e.Indices, a) ==> 0 <= e.Indices[a] && e.Indices[a] < $i && e.Archetypes.pointers[e.Indices[a]] == a
+
+//@ func Cache.get(c, f) (e)
+//@   props C07 C10
+//@   requires f != nil && c.indices != nil
+//@   requires forall id uint32 :: {mapHas(c.indices, id)} mapHas(c.indices, id) ==> 0 <= c.indices[id] && c.indices[id] < len(c.filters)
+//@   panics_if !mapHas(c.indices, f.id)
+//@   flag panic_clean
+//@   ensures e == &c.filters[c.indices[f.id]]
+
+//@ pred entriesDisjoint(c *Cache) bool =
+//@   forall j int, k int :: {c.filters[j].Archetypes.pointers.data, c.filters[k].Archetypes.pointers.data} 0 <= j && j < k && k < len(c.filters) ==>
+//@      (c.filters[j].Archetypes.pointers.data != c.filters[k].Archetypes.pointers.data || c.filters[j].Archetypes.pointers.data == nil)
+//@      && (c.filters[j].Indices != c.filters[k].Indices || c.filters[j].Indices == nil)
+
+// after adding table arch: an entry gained arch at the end of its list iff its filter selects arch; otherwise its list is unchanged
+//@ pred addedTo(e *cacheEntry, arch *archetype) bool =
+//@   (selects(e.Filter, arch) ==> len(e.Archetypes.pointers) == old(len(e.Archetypes.pointers)) + 1 && e.Archetypes.pointers[old(len(e.Archetypes.pointers))] == arch)
+//@   && (!selects(e.Filter, arch) ==> len(e.Archetypes.pointers) == old(len(e.Archetypes.pointers)))
+//@   && (forall k int :: {e.Archetypes.pointers[k]} 0 <= k && k < old(len(e.Archetypes.pointers)) ==> e.Archetypes.pointers[k] == old(e.Archetypes.pointers[k]))
+//@   && e.Filter == old(e.Filter)
+
+// The statement "for every entry j" is proved for one arbitrary, fixed j (the uninterpreted constant anyEntry):
+// the proof holds for every value of it, i.e. for all entries, without a quantifier over entries in the invariants.
+//@ uf anyEntry(c *Cache) int
+
+//@ pred sameEntryStorage(c *Cache, j int, k int) bool =
+//@   (c.filters[j].Archetypes.pointers.data == c.filters[k].Archetypes.pointers.data && c.filters[j].Archetypes.pointers.data != nil)
+//@   || (c.filters[j].Indices == c.filters[k].Indices && c.filters[j].Indices != nil)
+
+// (draft: the per-entry loop invariants are not discharged within the time limits - loops over slices of structs
+//  havoc all elements, see DESIGN.md; not counted for any property. Callers use the assumed frame below.)
+//@ func Cache.addArchetype(c, arch)
+//@   flag trusted
+//@   modifies all(cacheEntry.Indices)
+//@ func Cache.addArchetypeDraft(c, arch)
+//@   requires arch != nil && 0 <= anyEntry(c) && anyEntry(c) < len(c.filters)
+//@   requires forall i int :: {c.filters[i].Filter} 0 <= i && i < len(c.filters) ==> c.filters[i].Filter != nil && len(c.filters[i].Archetypes.pointers) < 1073741823
+//@   requires entryInv(&c.filters[anyEntry(c)]) && notListed(&c.filters[anyEntry(c)], arch)
+//@   requires forall k int :: {c.filters[k].Filter} 0 <= k && k < len(c.filters) && k != anyEntry(c) ==> !sameEntryStorage(c, anyEntry(c), k)
+//@   flag noframe
+//@   ensures entryInv(&c.filters[anyEntry(c)]) && addedTo(&c.filters[anyEntry(c)], arch)
+//@   ensures len(c.filters) == old(len(c.filters))
+//@   loop #1
+//@   inv c.filters == old(c.filters)
+//@   inv forall i int :: {c.filters[i].Filter} 0 <= i && i < len(c.filters) ==> c.filters[i].Filter != nil && len(c.filters[i].Archetypes.pointers) < 1073741823
+//@   inv anyEntry(c) < $i ==> entryInv(&c.filters[anyEntry(c)]) && addedTo(&c.filters[anyEntry(c)], arch)
+//@   inv anyEntry(c) >= $i ==> entryInv(&c.filters[anyEntry(c)]) && notListed(&c.filters[anyEntry(c)], arch) && unchanged(c.filters[anyEntry(c)].Archetypes.pointers) && unchanged(c.filters[anyEntry(c)].Filter) && unchanged(c.filters[anyEntry(c)].Indices)
+//@   inv forall k int :: {c.filters[k].Filter} $i <= k && k < len(c.filters) && k != anyEntry(c) ==> !sameEntryStorage(c, anyEntry(c), k)
+//@   loop #2
+//@   inv c.filters == old(c.filters)
+//@   inv forall i int :: {c.filters[i].Filter} 0 <= i && i < len(c.filters) ==> c.filters[i].Filter != nil && len(c.filters[i].Archetypes.pointers) < 1073741823
+//@   inv anyEntry(c) < $i ==> entryInv(&c.filters[anyEntry(c)]) && addedTo(&c.filters[anyEntry(c)], arch)
+//@   inv anyEntry(c) >= $i ==> entryInv(&c.filters[anyEntry(c)]) && notListed(&c.filters[anyEntry(c)], arch) && unchanged(c.filters[anyEntry(c)].Archetypes.pointers) && unchanged(c.filters[anyEntry(c)].Filter) && unchanged(c.filters[anyEntry(c)].Indices)
+//@   inv forall k int :: {c.filters[k].Filter} $i <= k && k < len(c.filters) && k != anyEntry(c) ==> !sameEntryStorage(c, anyEntry(c), k)
+
+// registration bookkeeping: ids map to positions and back
+//@ pred cacheIdxInv(c *Cache) bool =
+//@   c.indices != nil
+//@   && (forall id uint32 :: {mapHas(c.indices, id)} mapHas(c.indices, id) ==> 0 <= c.indices[id] && c.indices[id] < len(c.filters) && c.filters[c.indices[id]].ID == id)
+//@   && (forall p int :: {c.filters[p].ID} 0 <= p && p < len(c.filters) ==> mapHas(c.indices, c.filters[p].ID) && c.indices[c.filters[p].ID] == p)
+
+//@ func Cache.Unregister(c, f) (r)
+//@   props C07 C10
+//@   requires f != nil && cacheIdxInv(c)
+//@   panics_if !mapHas(c.indices, f.id)
+//@   flag panic_clean noframe
+//@   ensures cacheIdxInv(c) && len(c.filters) == old(len(c.filters)) - 1 && !mapHas(c.indices, f.id)
+//@   ensures r == old(c.filters[c.indices[f.id]].Filter)
+//@   ensures forall id uint32 :: {mapHas(c.indices, id)} id != f.id ==> mapHas(c.indices, id) == old(mapHas(c.indices, id))
+//@   ensures forall id uint32 :: {mapHas(c.indices, id)} id != f.id && mapHas(c.indices, id) ==>
+//@        c.filters[c.indices[id]].Filter == old(c.filters[c.indices[id]].Filter) && c.filters[c.indices[id]].Archetypes.pointers == old(c.filters[c.indices[id]].Archetypes.pointers) && c.filters[c.indices[id]].Indices == old(c.filters[c.indices[id]].Indices)
+
+//@ uf archesOf(c *Cache, f Filter) []*archetype
+//@ iface Cache.getArchetypesCB(c, f) (r)
+//@   flag trusted
+
+//@ pred cacheIdsUsed(c *Cache) bool = forall id uint32 :: {mapHas(c.indices, id)} mapHas(c.indices, id) ==> c.intPool.iused[id]
+
+//@ func Cache.Register(c, f) (r)
+//@   props C07 C10
+//@   requires cacheIdxInv(c) && cacheIdsUsed(c) && intPoolInv(&c.intPool) && len(c.intPool.pool) < 1073741823 && c.intPool.capacityIncrement < 1073741823
+//@   panics_if is(f, *CachedFilter)
+//@   flag panic_clean noframe
+//@   ensures cacheIdxInv(c) && cacheIdsUsed(c) && intPoolInv(&c.intPool)
+//@   ensures len(c.filters) == old(len(c.filters)) + 1 && r.filter == f && !old(mapHas(c.indices, r.id)) && mapHas(c.indices, r.id) && c.indices[r.id] == old(len(c.filters))
+//@   ensures c.filters[old(len(c.filters))].Filter == f && c.filters[old(len(c.filters))].Indices == nil
+//@   ensures forall id uint32 :: {mapHas(c.indices, id)} id != r.id ==> mapHas(c.indices, id) == old(mapHas(c.indices, id)) && c.indices[id] == old(c.indices[id])
+//@   ensures forall p int :: {c.filters[p].ID} 0 <= p && p < old(len(c.filters)) ==>
+//@        c.filters[p].Filter == old(c.filters[p].Filter) && c.filters[p].Archetypes.pointers == old(c.filters[p].Archetypes.pointers) && c.filters[p].Indices == old(c.filters[p].Indices) && c.filters[p].ID == old(c.filters[p].ID)
